@@ -92,8 +92,8 @@ def palettes(draw, k_max=4):
 
 def label_values(z, wide):
     # few distinct values so that equal labels on several atoms are common
-    masses = [0, 0, 0, 0, 2 * z + 1, 2 * z + 2] if not wide else [0, 0, 0, 1, 2, 10, 2 * z + 1, 999, 1000, 1001, 10**9]
-    rads = [0, 0, 0, 0, 0, 1, 2, 3] if not wide else [0, 0, 0, 1, 2, 3, 4, 9, 10, 11, 100, 10**9]
+    masses = [0, 0, 0, 0, 2 * z + 1, 2 * z + 2] if not wide else [0, 0, 0, 1, 1, 2, 2, 3, 10, 2 * z + 1, 999, 1000, 1000, 1001, 10**9]
+    rads = [0, 0, 0, 0, 0, 1, 2, 3] if not wide else [0, 0, 0, 1, 2, 3, 4, 4, 5, 6, 7, 8, 9, 10, 10, 11, 20, 100, 10**9]
     return masses, rads
 
 
